@@ -48,6 +48,17 @@ WidthExceeds(cell, wn, wd) ==
       c3 == Norm2(Cross3(cell[1], cell[2]))
   IN \A c \in {c1, c2, c3} : d * d * wd * wd > wn * wn * c
 
+\* the same for big cells (det^2 would overflow 32 bits): sufficient condition det * wd > wn * (floor(sqrt(cross^2)) + 1)
+RECURSIVE BSqrt(_, _, _)
+BSqrt(c, lo, hi) == IF lo = hi THEN lo ELSE LET m == (lo + hi + 1) \div 2 IN IF m * m <= c THEN BSqrt(c, m, hi) ELSE BSqrt(c, lo, m - 1)
+ISqrt(c) == BSqrt(c, 0, 46340)      \* floor of the square root (32-bit range)
+WidthExceedsBig(cell, wn, wd) ==
+  LET d == CellDet(cell)
+      c1 == Norm2(Cross3(cell[2], cell[3]))
+      c2 == Norm2(Cross3(cell[1], cell[3]))
+      c3 == Norm2(Cross3(cell[1], cell[2]))
+  IN \A c \in {c1, c2, c3} : d * wd > wn * (ISqrt(c) + 1)
+
 ---------------------------------------------------------------------------
 (* The 24 proper rotations of the cube: signed permutation matrices with    *)
 (* determinant +1; the 24 improper ones have determinant -1.               *)
